@@ -83,6 +83,7 @@ theorem EStep.errors_ext {s s' : St} (st : EStep s s') : ∃ Δ, s'.errors = s.e
   cases st with
   | incReg => exact ⟨[], by simp [St.incReg, St.mapFrames]⟩
   | emit i _ _ _ _ => exact ⟨[], by simp [St.push, St.mapFrames]⟩
+  | branch i _ _ _ _ _ => exact ⟨[], by simp [St.push, St.mapFrames]⟩
   | incEmit i _ _ _ _ => exact ⟨[], by simp [St.push, St.incReg, St.mapFrames]⟩
   | addErr k v l o => exact ⟨[⟨k, v, l, o⟩], rfl⟩
   | declare n v i _ _ _ _ _ =>
